@@ -747,64 +747,120 @@ theorem r2a_no_duplicate_beats (c : R2A.Cfg) (is : List R2A.In) (hw : R2AWfIs is
 
 /-! ### the oracle accepts the model -/
 
-/-- relation between the block and the monitors of `Spec.R2A` -/
-structure R2ARel (c : R2A.Cfg) (s : R2A.St) (m : Spec.R2A.Mon) : Prop where
-  wf : R2AWfS c s
-  data : s.tdata = m.data % 2^c.DW
-  sent : s.sent = 1 ↔ m.sentOk = true
-  va : VA s
-  cnt : m.accepts + s.tvalid ≤ m.loads
-
 theorem bool_eq_false_of_not {b : Bool} {p : Prop} (h : b = true ↔ p) (hp : ¬ p) : b = false := by
   cases hb : b
   · rfl
   · exact absurd (h.1 hb) hp
 
-theorem r2a_rel_step (c : R2A.Cfg) (s : R2A.St) (i : R2A.In) (m : Spec.R2A.Mon) (hi : R2AWfI i)
-    (hq : Spec.R2A.doneQuiet (R2A.obs c s) i = true) (h : R2ARel c s m) :
-    R2ARel c (R2A.step c s i) (Spec.R2A.monStep m (R2A.obs c s) i) := by
-  obtain ⟨hs, hdata, hsent, hva, hcnt⟩ := h
-  have h2 := hs.tvalid
-  have h6 := hs.sent
-  refine ⟨r2a_wf_step c s i, ?_, ?_, r2a_va_step c s i hs hi hq hva, ?_⟩
+/-- relation between the block and the monitors of `Spec.R2A` that holds in EVERY reachable state -/
+structure R2ARelU (c : R2A.Cfg) (s : R2A.St) (m : Spec.R2A.Mon) : Prop where
+  wf : R2AWfS c s
+  data : s.tdata = m.data % 2^c.DW
+  sentU : s.sent = 1 → m.sentOk = true
+
+/-- … and the part that holds while no `doneQuiet` violation is outstanding (none since the last reset) -/
+structure R2ARelQ (s : R2A.St) (m : Spec.R2A.Mon) : Prop where
+  va : VA s
+  cnt : m.accepts + s.tvalid ≤ m.loads
+  sentQ : m.sentOk = true → s.sent = 1
+
+def R2ARel (c : R2A.Cfg) (s : R2A.St) (m : Spec.R2A.Mon) : Prop :=
+  R2ARelU c s m ∧ (m.pend = false → R2ARelQ s m)
+
+theorem r2a_reset_iff (i : R2A.In) : (i.ap_reset == 1) = true ↔ i.ap_reset = 1 := by simp
+
+theorem r2a_relU_step (c : R2A.Cfg) (s : R2A.St) (i : R2A.In) (m : Spec.R2A.Mon) (hi : R2AWfI i)
+    (h : R2ARelU c s m) : R2ARelU c (R2A.step c s i) (Spec.R2A.monStep m (R2A.obs c s) i) := by
+  obtain ⟨hs, hdata, hsent⟩ := h
+  refine ⟨r2a_wf_step c s i, ?_, ?_⟩
   · rw [r2a_step_tdata c s i hs hi]
     by_cases hl : r2aLoad s i
     · simp [Spec.R2A.monStep, hl, (r2a_loadEff_iff c s i).2 hl]
     · simp [Spec.R2A.monStep, hl, bool_eq_false_of_not (r2a_loadEff_iff c s i) hl, hdata]
   · rw [r2a_step_sent c s i hs hi]
     by_cases hc : r2aClr s i
+    · simp [hc]
+    · have ec := bool_eq_false_of_not (r2a_clear_iff c s i) hc
+      by_cases hacc : r2aAcc s i
+      · have ha : s.tvalid = 1 ∧ i.tready = 1 := ⟨hacc.2.1, hacc.2.2⟩
+        simp [Spec.R2A.monStep, ec, (r2a_accept_iff c s i).2 ha]
+      · simp only [hc, hacc, if_false, Spec.R2A.monStep, ec, Bool.false_eq_true]
+        intro h1
+        have := hsent h1
+        split <;> simp [this]
+
+/-- counters and the `sentOk ⇒ sent` direction step from a clean pre-state, whatever the inputs -/
+theorem r2a_relQ_core_step (c : R2A.Cfg) (s : R2A.St) (i : R2A.In) (m : Spec.R2A.Mon) (hi : R2AWfI i)
+    (hs : R2AWfS c s) (h : R2ARelQ s m) :
+    (Spec.R2A.monStep m (R2A.obs c s) i).accepts + (R2A.step c s i).tvalid ≤ (Spec.R2A.monStep m (R2A.obs c s) i).loads ∧
+    ((Spec.R2A.monStep m (R2A.obs c s) i).sentOk = true → (R2A.step c s i).sent = 1) := by
+  obtain ⟨hva, hcnt, hsent⟩ := h
+  have h2 := hs.tvalid
+  constructor
+  · rw [r2a_step_tvalid c s i hs hi]
+    by_cases hr : i.ap_reset = 1
+    · simp [Spec.R2A.monStep, hr]
+    · have er : (i.ap_reset == 1) = false := bool_eq_false_of_not (r2a_reset_iff i) hr
+      by_cases ha : s.tvalid = 1 ∧ i.tready = 1
+      · have hacc : r2aAcc s i := ⟨hva ha.1, ha.1, ha.2⟩
+        simp only [Spec.R2A.monStep, er, (r2a_accept_iff c s i).2 ha, hacc, or_true, if_true, Bool.false_eq_true, if_false]
+        split <;> omega
+      · have hacc : ¬ r2aAcc s i := fun h => ha ⟨h.2.1, h.2.2⟩
+        have ea := bool_eq_false_of_not (r2a_accept_iff c s i) ha
+        by_cases hl : r2aLoad s i
+        · simp only [Spec.R2A.monStep, er, ea, (r2a_loadEff_iff c s i).2 hl, hr, hacc, hl, or_false, if_true,
+            Bool.false_eq_true, if_false]
+          omega
+        · simp only [Spec.R2A.monStep, er, ea, bool_eq_false_of_not (r2a_loadEff_iff c s i) hl, hr, hacc, hl, or_false,
+            if_false, Bool.false_eq_true]
+          omega
+  · rw [r2a_step_sent c s i hs hi]
+    by_cases hc : r2aClr s i
     · simp [Spec.R2A.monStep, hc, (r2a_clear_iff c s i).2 hc]
     · have ec := bool_eq_false_of_not (r2a_clear_iff c s i) hc
       by_cases ha : s.tvalid = 1 ∧ i.tready = 1
       · have hacc : r2aAcc s i := ⟨hva ha.1, ha.1, ha.2⟩
-        simp [Spec.R2A.monStep, hc, ec, hacc, (r2a_accept_iff c s i).2 ha]
+        simp [hc, hacc]
       · have hacc : ¬ r2aAcc s i := fun h => ha ⟨h.2.1, h.2.2⟩
         simp only [Spec.R2A.monStep, hc, ec, hacc, bool_eq_false_of_not (r2a_accept_iff c s i) ha, if_false,
           Bool.false_eq_true]
         exact hsent
-  · rw [r2a_step_tvalid c s i hs hi]
-    by_cases ha : s.tvalid = 1 ∧ i.tready = 1
-    · have hacc : r2aAcc s i := ⟨hva ha.1, ha.1, ha.2⟩
-      simp only [Spec.R2A.monStep, (r2a_accept_iff c s i).2 ha, hacc, or_true, if_true]
-      split <;> omega
-    · have hacc : ¬ r2aAcc s i := fun h => ha ⟨h.2.1, h.2.2⟩
-      have ea := bool_eq_false_of_not (r2a_accept_iff c s i) ha
-      by_cases hl : r2aLoad s i
-      · simp only [Spec.R2A.monStep, ea, (r2a_loadEff_iff c s i).2 hl, hacc, hl, or_false, if_true, Bool.false_eq_true,
-          if_false]
-        split <;> omega
-      · simp only [Spec.R2A.monStep, ea, bool_eq_false_of_not (r2a_loadEff_iff c s i) hl, hacc, hl, or_false, if_false,
-          Bool.false_eq_true]
-        split <;> omega
 
-/-- the clauses that only talk about 1-bit wires, straight from the netlist by case analysis -/
-theorem r2a_bit_clauses (c : R2A.Cfg) (s : R2A.St) (i : R2A.In) (hs : R2AWfS c s) (hi : R2AWfI i) (hva : VA s) :
+theorem r2a_va_reset (c : R2A.Cfg) (s : R2A.St) (i : R2A.In) (hs : R2AWfS c s) (hi : R2AWfI i) (hr : i.ap_reset = 1) :
+    VA (R2A.step c s i) := by
+  unfold VA
+  rw [r2a_step_tvalid c s i hs hi]
+  simp [hr]
+
+theorem r2a_rel_step (c : R2A.Cfg) (s : R2A.St) (i : R2A.In) (m : Spec.R2A.Mon) (hi : R2AWfI i) (h : R2ARel c s m) :
+    R2ARel c (R2A.step c s i) (Spec.R2A.monStep m (R2A.obs c s) i) := by
+  obtain ⟨hU, hQ⟩ := h
+  refine ⟨r2a_relU_step c s i m hi hU, ?_⟩
+  intro hp
+  by_cases hr : i.ap_reset = 1
+  · -- a reset: clean whatever happened before
+    have hs := hU.wf
+    have htv : (R2A.step c s i).tvalid = 0 := by rw [r2a_step_tvalid c s i hs hi]; simp [hr]
+    have hse : (Spec.R2A.monStep m (R2A.obs c s) i).sentOk = false := by
+      have : r2aClr s i := Or.inl hr
+      simp [Spec.R2A.monStep, (r2a_clear_iff c s i).2 this]
+    refine ⟨r2a_va_reset c s i hs hi hr, ?_, ?_⟩
+    · simp [Spec.R2A.monStep, hr, htv]
+    · intro h; rw [hse] at h; cases h
+  · have er : (i.ap_reset == 1) = false := bool_eq_false_of_not (r2a_reset_iff i) hr
+    simp only [Spec.R2A.monStep, er, Bool.false_eq_true, if_false, Bool.or_eq_false_iff, Bool.not_eq_false'] at hp
+    have hQ' := hQ hp.1
+    have hcore := r2a_relQ_core_step c s i m hi hU.wf hQ'
+    exact ⟨r2a_va_step c s i hU.wf hi hp.2 hQ'.va, hcore.1, hcore.2⟩
+
+/-- the clauses that only talk about 1-bit wires and hold in every state, straight from the netlist by case analysis -/
+theorem r2a_bit_clauses (c : R2A.Cfg) (s : R2A.St) (i : R2A.In) (hs : R2AWfS c s) (hi : R2AWfI i) :
     let o := R2A.obs c s
     let o' := R2A.obs c (R2A.step c s i)
     (o.tlast == o.tvalid && o'.tlast == o'.tvalid) = true ∧
     (o'.active == Spec.R2A.activeNext o i) = true ∧
     (!(o.tvalid == 1 && i.ap_reset != 1 && !Spec.R2A.accept o i) || o'.tvalid == 1) = true ∧
-    (!(Spec.R2A.accept o i || i.ap_reset == 1) || o'.tvalid == 0) = true ∧
+    (!(i.ap_reset == 1) || o'.tvalid == 0) = true ∧
     (!(o.tvalid == 0 && o'.tvalid == 1) || Spec.R2A.loadEff o i) = true ∧
     (!(Spec.R2A.loadEff o i && i.ap_reset != 1 && !Spec.R2A.accept o i) || o'.tvalid == 1) = true := by
   obtain ⟨a, tv, td, se⟩ := s
@@ -812,23 +868,35 @@ theorem r2a_bit_clauses (c : R2A.Cfg) (s : R2A.St) (i : R2A.In) (hs : R2AWfS c s
   obtain ⟨h1, h2, -, -⟩ := hs
   obtain ⟨h3, h4, h5, h6, h7⟩ := hi
   simp only at h1 h2 h3 h4 h5 h6 h7
-  unfold VA at hva
   rcases bit_cases h1 with rfl | rfl <;> rcases bit_cases h2 with rfl | rfl <;> rcases bit_cases h3 with rfl | rfl <;>
     rcases bit_cases h4 with rfl | rfl <;> rcases bit_cases h5 with rfl | rfl <;> rcases bit_cases h6 with rfl | rfl <;>
     rcases bit_cases h7 with rfl | rfl <;>
-    simp_all [Spec.R2A.accept, Spec.R2A.loadEff, Spec.R2A.activeNext, R2A.obs, R2A.step, R2A.comb, regER, orN, and2, or2,
+    simp [Spec.R2A.accept, Spec.R2A.loadEff, Spec.R2A.activeNext, R2A.obs, R2A.step, R2A.comb, regER, orN, and2, or2,
       not1, buf]
 
-theorem r2a_clauses_ok (c : R2A.Cfg) (s : R2A.St) (i : R2A.In) (m : Spec.R2A.Mon) (hi : R2AWfI i)
-    (hq : Spec.R2A.doneQuiet (R2A.obs c s) i = true) (h : R2ARel c s m) :
-    ∀ p ∈ Spec.R2A.clauses c m (R2A.obs c s) i (R2A.obs c (R2A.step c s i)), p.2 = true := by
-  have hh := r2a_rel_step c s i m hi hq h
-  obtain ⟨b1, b2, b3, b4, b5, b6⟩ := r2a_bit_clauses c s i h.wf hi h.va
+/-- … and the one that needs "VALID ⇒ active": an accepted beat is retired -/
+theorem r2a_bit_clause_drop (c : R2A.Cfg) (s : R2A.St) (i : R2A.In) (hs : R2AWfS c s) (hi : R2AWfI i) (hva : VA s) :
+    (!(Spec.R2A.accept (R2A.obs c s) i) || (R2A.obs c (R2A.step c s i)).tvalid == 0) = true := by
+  obtain ⟨a, tv, td, se⟩ := s
+  obtain ⟨st, rs, dn, ld, ri, tr⟩ := i
+  obtain ⟨h1, h2, -, -⟩ := hs
+  obtain ⟨-, h4, -, h6, h7⟩ := hi
+  simp only at h1 h2 h4 h6 h7
+  unfold VA at hva
+  rcases bit_cases h1 with rfl | rfl <;> rcases bit_cases h2 with rfl | rfl <;>
+    rcases bit_cases h4 with rfl | rfl <;> rcases bit_cases h6 with rfl | rfl <;>
+    rcases bit_cases h7 with rfl | rfl <;>
+    simp_all [Spec.R2A.accept, R2A.obs, R2A.step, R2A.comb, regER, orN, and2, or2, not1, buf]
+
+theorem r2a_clausesU_ok (c : R2A.Cfg) (s : R2A.St) (i : R2A.In) (m : Spec.R2A.Mon) (hi : R2AWfI i) (h : R2ARelU c s m) :
+    ∀ p ∈ Spec.R2A.clausesU c m (R2A.obs c s) i (R2A.obs c (R2A.step c s i)), p.2 = true := by
+  have hh := r2a_relU_step c s i m hi h
+  obtain ⟨b1, b2, b3, b4, b5, b6⟩ := r2a_bit_clauses c s i h.wf hi
   have k1 : (R2A.obs c s).tkeep = R2A.tkeepVal c.W % 2^c.KW := r2a_const_keep c s default
   have k2 : (R2A.obs c (R2A.step c s i)).tkeep = R2A.tkeepVal c.W % 2^c.KW := r2a_const_keep c (R2A.step c s i) default
   intro p hp
-  simp only [Spec.R2A.clauses, List.mem_cons, List.mem_nil_iff, or_false] at hp
-  rcases hp with rfl | rfl | rfl | rfl | rfl | rfl | rfl | rfl | rfl | rfl | rfl
+  simp only [Spec.R2A.clausesU, List.mem_cons, List.mem_nil_iff, or_false] at hp
+  rcases hp with rfl | rfl | rfl | rfl | rfl | rfl | rfl | rfl | rfl
   · exact b1
   · simp [k1, k2]
   · exact b2
@@ -841,44 +909,81 @@ theorem r2a_clauses_ok (c : R2A.Cfg) (s : R2A.St) (i : R2A.In) (m : Spec.R2A.Mon
     exact hh.data
   · show (!((R2A.obs c (R2A.step c s i)).sent == 1) || (Spec.R2A.monStep m (R2A.obs c s) i).sentOk) = true
     by_cases hs1 : (R2A.step c s i).sent = 1
-    · rw [hh.sent.1 hs1]; simp
+    · rw [hh.sentU hs1]; simp
     · have : (R2A.obs c (R2A.step c s i)).sent ≠ 1 := hs1
       simp [this]
+
+theorem r2a_clausesQ_ok (c : R2A.Cfg) (s : R2A.St) (i : R2A.In) (m : Spec.R2A.Mon) (hi : R2AWfI i) (hU : R2ARelU c s m)
+    (hQ : R2ARelQ s m) :
+    ∀ p ∈ Spec.R2A.clausesQ m (R2A.obs c s) i (R2A.obs c (R2A.step c s i)), p.2 = true := by
+  have hcore := r2a_relQ_core_step c s i m hi hU.wf hQ
+  intro p hp
+  simp only [Spec.R2A.clausesQ, List.mem_cons, List.mem_nil_iff, or_false] at hp
+  rcases hp with rfl | rfl | rfl
+  · exact r2a_bit_clause_drop c s i hU.wf hi hQ.va
   · show (!(Spec.R2A.monStep m (R2A.obs c s) i).sentOk || (R2A.obs c (R2A.step c s i)).sent == 1) = true
     cases hm : (Spec.R2A.monStep m (R2A.obs c s) i).sentOk
     · rfl
-    · have : (R2A.obs c (R2A.step c s i)).sent = 1 := hh.sent.2 hm
+    · have : (R2A.obs c (R2A.step c s i)).sent = 1 := hcore.2 hm
       simp [this]
   · show decide (_ ≤ _) = true
     simp only [decide_eq_true_eq]
-    exact hh.cnt
+    exact hcore.1
 
-theorem r2a_check_ok (c : R2A.Cfg) (is : List R2A.In) (hw : R2AWfIs is) (s : R2A.St) (m : Spec.R2A.Mon) (t : Nat)
-    (h : R2ARel c s m) :
-    (Spec.R2A.checkFrom true c m (R2A.obs c s) t (R2A.trace c s is)).isFail = false := by
+theorem r2a_check_ok (mode : Nat) (hmode : mode = 1 ∨ mode = 2) (c : R2A.Cfg) (is : List R2A.In) (hw : R2AWfIs is)
+    (s : R2A.St) (m : Spec.R2A.Mon) (t : Nat) (h : R2ARel c s m) (h1 : mode = 1 → m.pend = false) :
+    (Spec.R2A.checkFrom mode c m (R2A.obs c s) t (R2A.trace c s is)).isFail = false := by
   induction is generalizing s m t with
   | nil => rfl
   | cons i is ih =>
     have hi : R2AWfI i := hw i (by simp)
-    simp only [R2A.trace, Spec.R2A.checkFrom, if_true]
-    by_cases hq : Spec.R2A.doneQuiet (R2A.obs c s) i = true
+    simp only [R2A.trace, Spec.R2A.checkFrom]
+    by_cases hq : Spec.R2A.assumed mode (R2A.obs c s) i = true
     · simp only [hq, Bool.not_true, Bool.false_eq_true, if_false]
-      rw [Spec.firstFail_none _ (r2a_clauses_ok c s i m hi hq h)]
-      exact ih (fun j hj => hw j (by simp [hj])) _ _ _ (r2a_rel_step c s i m hi hq h)
-    · have : Spec.R2A.doneQuiet (R2A.obs c s) i = false := by simpa using hq
+      have hcl : ∀ p ∈ Spec.R2A.clauses mode c m (R2A.obs c s) i (R2A.obs c (R2A.step c s i)), p.2 = true := by
+        intro p hp
+        simp only [Spec.R2A.clauses, List.mem_append] at hp
+        rcases hp with hp | hp
+        · exact r2a_clausesU_ok c s i m hi h.1 p hp
+        · cases hpend : m.pend
+          · exact r2a_clausesQ_ok c s i m hi h.1 (h.2 hpend) p (by
+              have : Spec.R2A.judged mode m = true := by simp [Spec.R2A.judged, hpend]
+              simpa [this] using hp)
+          · have hm2 : mode = 2 := by
+              rcases hmode with h' | h'
+              · have := h1 h'; rw [hpend] at this; cases this
+              · exact h'
+            have : Spec.R2A.judged mode m = false := by simp [Spec.R2A.judged, hpend, hm2]
+            simp [this] at hp
+      rw [Spec.firstFail_none _ hcl]
+      refine ih (fun j hj => hw j (by simp [hj])) _ _ _ (r2a_rel_step c s i m hi h) ?_
+      intro hm1
+      have hp0 := h1 hm1
+      have hdq : Spec.R2A.doneQuiet (R2A.obs c s) i = true := by simpa [Spec.R2A.assumed, hm1] using hq
+      simp [Spec.R2A.monStep, hp0, hdq]
+    · have : Spec.R2A.assumed mode (R2A.obs c s) i = false := by simpa using hq
       simp [this, Spec.Verdict.isFail]
 
 theorem r2a_rel_init (c : R2A.Cfg) : R2ARel c R2A.init Spec.R2A.Mon.init :=
-  ⟨r2a_wf_init c, (by simp [R2A.init, Spec.R2A.Mon.init]), (by simp [R2A.init, Spec.R2A.Mon.init]),
-   (by intro h; cases h), (by simp [R2A.init, Spec.R2A.Mon.init])⟩
+  ⟨⟨r2a_wf_init c, (by simp [R2A.init, Spec.R2A.Mon.init]), (by intro h; cases h)⟩,
+   fun _ => ⟨(by intro h; cases h), (by simp [R2A.init, Spec.R2A.Mon.init]), (by intro h; cases h)⟩⟩
 
-/-- (10) the executable oracle `Spec.R2A.check` in the mode that stops at the first violation of the environment assumption —
-    the one the harness runs on the traces of the REAL block — never reports a failing clause on the trace of the model, under
-    EVERY schedule, for every W, DW, KW: VALID stable / retired by accept or reset / raised only and always by an effective
-    load, tdata = latest load, tlast = tvalid, tkeep constant, sent ⇔ accepted since the last clear, accepts ≤ loads. -/
+/-- (10) the executable oracle `Spec.R2A.check` in mode 1 (stop at the first violation of the environment assumption
+    `doneQuiet`, judge every clause) never reports a failing clause on the trace of the model, under EVERY schedule, for every
+    W, DW, KW: VALID stable / retired by accept / cleared by reset / raised only and always by an effective load,
+    tdata = latest load, tlast = tvalid, tkeep constant, sent ⇔ accepted since the last clear, accepts ≤ loads. -/
 theorem r2a_oracle_accepts_model (c : R2A.Cfg) (is : List R2A.In) (hw : R2AWfIs is) :
-    (Spec.R2A.check true c (R2A.obs c R2A.init) (R2A.trace c R2A.init is)).isFail = false :=
-  r2a_check_ok c is hw _ _ _ (r2a_rel_init c)
+    (Spec.R2A.check 1 c (R2A.obs c R2A.init) (R2A.trace c R2A.init is)).isFail = false :=
+  r2a_check_ok 1 (Or.inl rfl) c is hw _ _ _ (r2a_rel_init c) (fun _ => rfl)
+
+/-- (10') mode 2 — the one the harness runs on the traces of the REAL block next to the literal mode: under EVERY schedule,
+    with NO assumption on done beyond the literal one (where the oracle stops), the state-independent clauses `clausesU`
+    — reset priority ("ap_reset clears VALID whatever `active` is"), VALID stable, raised only/always by an effective load,
+    payload, tlast, tkeep, active rule, sent only after an accept — hold in EVERY state, including those reached through a
+    done-while-pending; and `clausesQ` hold whenever no `doneQuiet` violation happened since the last reset. -/
+theorem r2a_oracle_tolerant_accepts_model (c : R2A.Cfg) (is : List R2A.In) (hw : R2AWfIs is) :
+    (Spec.R2A.check 2 c (R2A.obs c R2A.init) (R2A.trace c R2A.init is)).isFail = false :=
+  r2a_check_ok 2 (Or.inr rfl) c is hw _ _ _ (r2a_rel_init c) (fun h => by cases h)
 
 theorem r2a_traceG_eq (c : R2A.Cfg) (s : R2A.St) (is : List R2A.In) : R2A.traceG c s is = R2A.trace c s is := by
   induction is generalizing s with
@@ -886,20 +991,36 @@ theorem r2a_traceG_eq (c : R2A.Cfg) (s : R2A.St) (is : List R2A.In) : R2A.traceG
   | cons i is ih => simp only [R2A.traceG, R2A.trace, R2A.stepG_eq_step, ih]
 
 theorem r2a_oracle_accepts_generated (c : R2A.Cfg) (is : List R2A.In) (hw : R2AWfIs is) :
-    (Spec.R2A.check true c (R2A.obs c R2A.init) (R2A.traceG c R2A.init is)).isFail = false := by
-  rw [r2a_traceG_eq]; exact r2a_oracle_accepts_model c is hw
+    (Spec.R2A.check 1 c (R2A.obs c R2A.init) (R2A.traceG c R2A.init is)).isFail = false ∧
+    (Spec.R2A.check 2 c (R2A.obs c R2A.init) (R2A.traceG c R2A.init is)).isFail = false := by
+  rw [r2a_traceG_eq]; exact ⟨r2a_oracle_accepts_model c is hw, r2a_oracle_tolerant_accepts_model c is hw⟩
+
+/-- reset priority, stated directly: after EVERY schedule (no assumption at all), a cycle with ap_reset = 1 leaves VALID,
+    LAST and sent down and the adapter inactive — whatever `active` was, also with a stale beat pending while inactive. -/
+theorem r2a_reset_clears (c : R2A.Cfg) (is : List R2A.In) (i : R2A.In) (hi : R2AWfI i) (hr : i.ap_reset = 1) (j : R2A.In) :
+    (R2A.run c R2A.init (is ++ [i])).tvalid = 0 ∧ (R2A.comb c (R2A.run c R2A.init (is ++ [i])) j).tlast = 0 ∧
+    (R2A.run c R2A.init (is ++ [i])).sent = 0 ∧ (R2A.run c R2A.init (is ++ [i])).active = 0 := by
+  have hs := r2a_wf_run c is
+  rw [r2a_run_snoc]
+  have h1 : (R2A.step c (R2A.run c R2A.init is) i).tvalid = 0 := by rw [r2a_step_tvalid c _ i hs hi]; simp [hr]
+  refine ⟨h1, ?_, ?_, ?_⟩
+  · simp [R2A.comb, buf, h1]
+  · rw [r2a_step_sent c _ i hs hi]; simp [r2aClr, hr]
+  · rw [r2a_step_active c _ i hs hi]; simp [hr]
 
 /-! ### the boundary of the environment assumption (a genuine defect under the literal reading) -/
 
 /-  FULL STATEMENT under the literal assumption (kept visible, NOT provable — refuted below):
       ∀ c is, R2AWfIs is → (∀ cycle, ap_done = 1 → sent = 1 before the edge) →
-        (Spec.R2A.check false c (R2A.obs c R2A.init) (R2A.trace c R2A.init is)).isFail = false
-    The proved version is `r2a_oracle_accepts_model` / `r2a_valid_drops` / `r2a_no_duplicate_beats` under `Quiet`. -/
+        (Spec.R2A.check 0 c (R2A.obs c R2A.init) (R2A.trace c R2A.init is)).isFail = false
+    The proved versions are `r2a_oracle_accepts_model` / `r2a_valid_drops` / `r2a_no_duplicate_beats` under `Quiet`, and
+    `r2a_oracle_tolerant_accepts_model` (everything except the three `clausesQ`, in every state, with no assumption). -/
 
 /-- W = 16, DW = 64: start; load 0xAB; the peer accepts it (sent = 1); load 0xCD (pending); ap_done arrives — sent IS up, so
     "done only after a completed transfer" holds literally — ; then the peer accepts 0xCD.  The adapter, inactive since the
     done pulse, does not see the handshake: VALID stays up (the beat will be delivered again and again), sent stays 0.
-    The literal-mode oracle fails at cycle 5 on `valid_drops_when_accepted_or_reset`, with the `pend` flag set. -/
+    The literal-mode oracle fails at cycle 5 on `valid_drops_when_accepted`, with the `pend` flag set; the tolerant mode
+    accepts the history, and still accepts it when a reset follows (VALID cleared while inactive) and the adapter restarts. -/
 theorem r2a_done_while_pending_counterexample :
     let c : R2A.Cfg := ⟨16, 64, 8⟩
     let is : List R2A.In := [⟨1,0,0,0,0,0⟩, ⟨0,0,0,1,0xAB,0⟩, ⟨0,0,0,0,0xAB,1⟩, ⟨0,0,0,1,0xCD,0⟩, ⟨0,0,1,0,0xCD,0⟩]
@@ -910,8 +1031,13 @@ theorem r2a_done_while_pending_counterexample :
     s.tvalid = 1 ∧ s.active = 0 ∧ acc.tready = 1 ∧                     -- the peer accepts the pending beat …
     (R2A.step c s acc).tvalid = 1 ∧ (R2A.step c s acc).sent = 0 ∧     -- … and it is still offered, sent is not raised
     (R2A.step c (R2A.step c s acc) acc).tvalid = 1 ∧                  -- … and accepted a second time: duplicated
-    (Spec.R2A.check false c (R2A.obs c R2A.init) (R2A.trace c R2A.init (is ++ [acc]))).isFail = true ∧
-    (Spec.R2A.check true c (R2A.obs c R2A.init) (R2A.trace c R2A.init (is ++ [acc]))) = .stop 4 := by
+    (Spec.R2A.check 0 c (R2A.obs c R2A.init) (R2A.trace c R2A.init (is ++ [acc]))).isFail = true ∧
+    (Spec.R2A.check 1 c (R2A.obs c R2A.init) (R2A.trace c R2A.init (is ++ [acc]))) = .stop 4 ∧
+    (Spec.R2A.check 2 c (R2A.obs c R2A.init) (R2A.trace c R2A.init (is ++ [acc]))) = .ok ∧
+    -- a reset while inactive clears the stale beat; after a restart nothing is offered and every clause is judged again
+    (R2A.run c R2A.init (is ++ [acc, ⟨0,1,0,0,0,0⟩])) = ⟨0, 0, 0xCD, 0⟩ ∧
+    (Spec.R2A.check 2 c (R2A.obs c R2A.init)
+      (R2A.trace c R2A.init (is ++ [acc, ⟨0,1,0,0,0,0⟩, ⟨1,0,0,0,0,1⟩, ⟨0,0,0,0,0,1⟩, ⟨0,0,0,1,0xEF,0⟩, ⟨0,0,0,0,0,1⟩]))) = .ok := by
   decide
 
 /-! ### where ap_done comes from: the kernel FSM (generated from VitisKernelFSM.clock) -/
@@ -941,7 +1067,7 @@ example :
     (R2A.run c R2A.init (is.take 10)) = ⟨1, 0, 0xFFFF, 1⟩ ∧    -- reg_in is whatever is poked; the 16-bit tdata wire masks it
     (R2A.run c R2A.init is) = ⟨0, 0, 0xFFFF, 0⟩ ∧
     r2aAccepts c R2A.init is = 3 ∧ r2aLoads c R2A.init is = 5 ∧     -- (one beat is taken by the peer in the reset cycle)
-    Spec.R2A.check true c (R2A.obs c R2A.init) (R2A.trace c R2A.init is) = .ok := by
+    Spec.R2A.check 1 c (R2A.obs c R2A.init) (R2A.trace c R2A.init is) = .ok := by
   refine ⟨?_, ?_, by decide, by decide, by decide, by decide, by decide, by decide, by decide, by decide, by decide⟩
   · intro i hi
     simp only [List.mem_cons, List.mem_nil_iff, or_false] at hi
